@@ -18,8 +18,8 @@ RungOf2(env, death) == CASE env \in {"idle", "receive", "thread", "cbdropped", "
 Own(env, death) == CASE RungOf2(env, death) = "eof" -> 0 [] RungOf2(env, death) = "sigint" -> 5000 [] OTHER -> 15000
 \* a worker reached via= another worker only sees EOF when that forwarder is gone; the forwarder's body (blocked reading
 \* from the sub) is ended by its own SIGINT rung: one more 5 s rung per level
-Deadline(c) == Own(c.env, c.death) + (IF c.topo = "via" THEN 5000 ELSE 0)
-Slack(c) == 3000 + (IF c.topo = "via" THEN 1500 ELSE 0) + (IF Own(c.env, c.death) > 0 THEN 1000 ELSE 0)
+Deadline(c) == Own(c.env, c.death) + (IF c.topo \in {"via", "via-forwarder"} THEN 5000 ELSE 0)
+Slack(c) == 3000 + (IF c.topo \in {"via", "via-forwarder"} THEN 1500 ELSE 0) + (IF Own(c.env, c.death) > 0 THEN 1000 ELSE 0)
 Cooperative(env) == env \in {"idle", "receive", "sending", "cbdropped"}
 
 OrphanVerdict(c) ==
